@@ -37,7 +37,7 @@ var portCounter int
 // (several worker processes allocate ports at the same time; asking the kernel
 // for "any free port" and releasing it again races between them).
 func FreePorts(n int) []int {
-	base := 12000 + (os.Getpid()%500)*100
+	base := 10000 + (os.Getpid()%200)*100
 	var ports []int
 	for len(ports) < n {
 		p := base + portCounter%100
